@@ -27,18 +27,17 @@ impl PhoneticMethod {
     /// Creates a new `PhoneticMethod` struct.
     pub(crate) fn new(config: &Config) -> Self {
         // Load candidate selections file.
-        let selections = if let Ok(file) = std::fs::read(config.get_user_phonetic_selection_data())
-        {
-            serde_json::from_slice(&file).unwrap()
-        } else {
-            HashMap::with_hasher(RandomState::new())
-        };
+        // A missing or unreadable (eg. truncated by an interrupted save) file is treated as empty.
+        let selections = std::fs::read(config.get_user_phonetic_selection_data())
+            .ok()
+            .and_then(|file| serde_json::from_slice(&file).ok())
+            .unwrap_or_else(|| HashMap::with_hasher(RandomState::new()));
 
         // Load user's auto correct file.
         let (modified, autocorrect) = {
             if let Ok(mut file) = File::open(config.get_user_phonetic_autocorrect()) {
-                let modified = file.metadata().unwrap().modified().unwrap();
-                let autocorrect = serde_json::from_slice(&read(&mut file)).unwrap();
+                let modified = modified_time(&file);
+                let autocorrect = parse_autocorrect(&read(&mut file));
                 (modified, autocorrect)
             } else {
                 (
@@ -132,11 +131,11 @@ impl Method for PhoneticMethod {
                     .to_string(),
                 suggestion,
             );
-            write(
-                config.get_user_phonetic_selection_data(),
-                serde_json::to_string(&self.selections).unwrap(),
-            )
-            .unwrap();
+            // Failing to save the file (eg. missing or read-only directory) only loses
+            // the persistence of this selection, so the error is ignored.
+            if let Ok(json) = serde_json::to_string(&self.selections) {
+                let _ = write(config.get_user_phonetic_selection_data(), json);
+            }
         }
 
         // Reset to defaults
@@ -145,11 +144,10 @@ impl Method for PhoneticMethod {
 
     fn update_engine(&mut self, config: &Config) {
         if let Ok(mut file) = File::open(config.get_user_phonetic_autocorrect()) {
-            let modified = file.metadata().unwrap().modified().unwrap();
+            let modified = modified_time(&file);
             // Update the auto correct entries if only the file was modified in the meantime.
             if modified > self.modified {
-                self.suggestion.user_autocorrect =
-                    serde_json::from_slice(&read(&mut file)).unwrap();
+                self.suggestion.user_autocorrect = parse_autocorrect(&read(&mut file));
                 self.modified = modified;
             }
         }
@@ -184,6 +182,18 @@ impl Method for PhoneticMethod {
             Suggestion::empty()
         }
     }
+}
+
+/// Last modification time of the `file`, `UNIX_EPOCH` if it is not available.
+fn modified_time(file: &File) -> SystemTime {
+    file.metadata()
+        .and_then(|m| m.modified())
+        .unwrap_or(SystemTime::UNIX_EPOCH)
+}
+
+/// Parse the user's auto correct file, an unreadable file is treated as empty.
+fn parse_autocorrect(content: &[u8]) -> HashMap<String, String, RandomState> {
+    serde_json::from_slice(content).unwrap_or_else(|_| HashMap::with_hasher(RandomState::new()))
 }
 
 // Implement Default trait on PhoneticMethod for testing convenience.
